@@ -6,6 +6,7 @@ import (
 	"unicode"
 
 	"verif/engine/core"
+	"verif/engine/ref"
 )
 
 // Reference-side copy of the documented apk version grammar (not read from the code under test).
@@ -107,6 +108,10 @@ func GolangLiteralPseudo(s string) bool {
 	return strings.HasSuffix(s, "-pseudo") && strings.Count(s, "-") == 1
 }
 
+// mavenConventionalShape: the ComparableVersion item tree is "numbers, then at most one group"
+// (see ref.MavenSimpleTree), so a qualifier string never meets a nested list at one position.
+func mavenConventionalShape(s string) bool { return ref.MavenSimpleTree(s) }
+
 func anyInput(f func(string) bool) Pred {
 	return func(v *core.Violation) bool {
 		for _, s := range v.Inputs {
@@ -124,6 +129,13 @@ func init() {
 	})
 	Register("C01-maven-qualifier-cycle", func(v *core.Violation) bool {
 		return v.Kind == "transitivity" && anyInput(MavenCycleElement)(v)
+	})
+	// Maven's own ComparableVersion is not transitive where a qualifier string meets a nested
+	// list at the same position (string < list whatever the list holds): 0 < p0 < -a0 < 0.
+	// That needs an operand whose item tree is not of the simple form "numbers, then at most one
+	// qualifier group or build number": 1 < 1.sp-1 < 1-alpha < 1 in Maven itself.
+	Register("C01-maven-comparableversion-string-vs-list", func(v *core.Violation) bool {
+		return v.Kind == "transitivity" && anyInput(func(s string) bool { return !mavenConventionalShape(s) })(v)
 	})
 	Register("C01-alpm-direct-suffix", func(v *core.Violation) bool {
 		return v.Kind == "transitivity" && anyInput(AlpmLetterSuffixElement)(v)
